@@ -192,6 +192,88 @@ def env_action_mask_oracle(rep, scenario, state):
     return {"clause_failures": bad, "n_actions": int(n)}
 
 
+def action_decode_oracle(rep, scenario):
+    """native evaluation of the decode clauses (C10 / C11 / C12) on the real action spaces: every vector of the
+    parameterised space - handed over as a list, a tuple or an int64 ndarray - decodes without error to the documented
+    action (host index modulo the subnet size, first definition of a (service|process, os) pair, undefined pair ->
+    zero-cost no-op), the caller's vector is left untouched (decoding it again gives the same action), and flat indices
+    given as python ints or NumPy integers give the action at that position of load_action_list"""
+    import numpy as np
+    from nasim.envs.action import ParameterisedActionSpace, FlatActionSpace, load_action_list
+    sc = rep["scenario"]
+    osn, srvn, procn = names(sc)
+    _add_actions(scenario, sc)
+    import nasim.scenarios.utils as u
+    E, P = scenario.scenario_dict[u.EXPLOITS], scenario.scenario_dict[u.PRIVESCS]
+    bad = []
+    psp = ParameterisedActionSpace(scenario)
+    nvec = [int(x) for x in psp.nvec]
+    rng = __import__("random").Random(rep.get("seed", 0))
+    subs = sc["subnets"]
+
+    def expect(v):
+        t, s_, h_, o_, sv, pr = v
+        sub = s_ + 1
+        tgt = (sub, h_ % subs[sub])
+        os_ = None if o_ == 0 else osn[o_ - 1]
+        kinds = ["Exploit", "PrivilegeEscalation", "ServiceScan", "OSScan", "SubnetScan", "ProcessScan"]
+        k = kinds[t]
+        if k == "Exploit":
+            d = next((e for e in E.values() if e[u.EXPLOIT_SERVICE] == srvn[sv] and e[u.EXPLOIT_OS] == os_), None)
+            if d is None:
+                return ("NoOp", None, 0.0, None)
+            return (k, tgt, float(d[u.EXPLOIT_COST]), (srvn[sv], os_, float(d[u.EXPLOIT_PROB]), int(d[u.EXPLOIT_ACCESS])))
+        if k == "PrivilegeEscalation":
+            d = next((e for e in P.values() if e[u.PRIVESC_PROCESS] == procn[pr] and e[u.PRIVESC_OS] == os_), None)
+            if d is None:
+                return ("NoOp", None, 0.0, None)
+            return (k, tgt, float(d[u.PRIVESC_COST]), (procn[pr], os_, float(d[u.PRIVESC_PROB]), int(d[u.PRIVESC_ACCESS])))
+        return (k, tgt, 1.0, None)
+
+    def describe(a):
+        k = type(a).__name__
+        if k == "NoOp":
+            return ("NoOp", None, float(a.cost), None)
+        extra = None
+        if k == "Exploit":
+            extra = (a.service, a.os, float(a.prob), int(a.access))
+        if k == "PrivilegeEscalation":
+            extra = (a.process, a.os, float(a.prob), int(a.access))
+        return (k, tuple(int(x) for x in a.target), float(a.cost), extra)
+    for _ in range(rep.get("n_vectors", 12)):
+        v = [rng.randrange(n) for n in nvec]
+        want = expect(v)
+        for form in ("list", "tuple", "int64-array", "int32-array"):
+            arg = list(v) if form == "list" else tuple(v) if form == "tuple" else \
+                np.array(v, dtype=np.int64 if form == "int64-array" else np.int32)
+            keep = np.array(v)
+            try:
+                got = describe(psp.get_action(arg))
+                again = describe(psp.get_action(arg))
+            except Exception as e:
+                bad.append(f"C10.decode-never-raises: {form} {v}: {type(e).__name__}: {e}")
+                continue
+            if got != want:
+                bad.append(f"C11.decode: {form} {v}: decoded {got}, documented {want}")
+            if not np.array_equal(np.array(arg), keep) or again != got:
+                bad.append(f"C12.decode-leaves-the-callers-vector-alone: {form} {v} became {list(np.array(arg))}; second decode {again}")
+    flat = FlatActionSpace(scenario)
+    ref = load_action_list(scenario)
+    if flat.n != len(ref):
+        bad.append(f"C11.flat-size: n={flat.n} but load_action_list has {len(ref)} entries")
+    for _ in range(6):
+        k = rng.randrange(min(flat.n, len(ref)))
+        for idx in (k, np.int64(k), np.int32(k)):
+            try:
+                a = flat.get_action(idx)
+            except Exception as e:
+                bad.append(f"C10.flat-index-accepted: {type(idx).__name__} {k}: {type(e).__name__}")
+                continue
+            if describe(a) != describe(ref[k]):
+                bad.append(f"C11.flat-index-to-action: index {k} gives {describe(a)}, list position holds {describe(ref[k])}")
+    return {"clause_failures": bad[:6]}
+
+
 def _width(sc):
     return sc["bounds"][0] + sc["bounds"][1] + 6 + sc["n_os"] + sc["n_srv"] + sc["n_proc"]
 
@@ -430,12 +512,14 @@ def run(rep):
                 actual["result"] = result_dict(res)
                 actual["input_vector_after"] = [float(x) for x in vec]
                 actual["aliased"] = bool(np.shares_memory(nxt.vector, vec))
+                actual["__live__"] = [nxt.vector]
             elif h == "net_perform_action":
                 nxt, res = net.perform_action(state, act)
                 actual["next_tensor"] = nxt.tensor.tolist()
                 actual["result"] = result_dict(res)
                 actual["input_tensor_after"] = state.tensor.tolist()
                 actual["aliased"] = bool(np.shares_memory(nxt.tensor, state.tensor))
+                actual["__live__"] = [nxt.tensor]
             elif h == "net_subnet_scan":
                 nxt, res = net._perform_subnet_scan(state, act)
                 actual["next_tensor"] = nxt.tensor.tolist()
@@ -443,6 +527,7 @@ def run(rep):
             elif h == "net_reset":
                 nxt = net.reset(state)
                 actual["next_tensor"] = nxt.tensor.tolist()
+                actual["__live__"] = [nxt.tensor]
                 actual["input_tensor_after"] = state.tensor.tolist()
             elif h == "net_update_reachable":
                 net._update_reachable(state, tuple(rep["compromised_addr"]))
@@ -467,14 +552,18 @@ def run(rep):
                 actual["input_tensor_after"] = state.tensor.tolist()
                 actual["aliased"] = bool(np.shares_memory(obs.tensor, state.tensor))
                 actual["obs_dtype"] = str(obs.tensor.dtype)
+                actual["__live__"] = [obs.tensor]
             elif h == "state_get_initial_observation":
                 obs = state.get_initial_observation(rep["fully_obs"])
                 actual["obs_tensor"] = obs.tensor.tolist()
                 actual["input_tensor_after"] = state.tensor.tolist()
                 actual["aliased"] = bool(np.shares_memory(obs.tensor, state.tensor))
                 actual["obs_dtype"] = str(obs.tensor.dtype)
+                actual["__live__"] = [obs.tensor]
             elif h == "env_action_mask":
                 actual.update(env_action_mask_oracle(rep, scenario, state))
+            elif h == "action_decode":
+                actual.update(action_decode_oracle(rep, scenario))
             elif h == "layout":
                 actual.update(layout_oracle(rep, scenario, net, state))
             elif h == "scn_scalar":
@@ -496,9 +585,11 @@ def run(rep):
     finally:
         np.random.rand = orig
     actual["draws_used"] = calls["n"]
+    if not rep.get("__keep_live__"):
+        pass
     pred = rep.get("predicted", {})
     mism = []
-    if h in ("env_step", "env_action_mask", "layout", "scn_scalar"):
+    if h in ("env_step", "env_action_mask", "layout", "scn_scalar", "action_decode"):
         # clause-level native oracle: reproduced iff some environment-level clause fails on the real code
         fails = actual.get("clause_failures", [])
         if actual.get("exception"):
@@ -520,11 +611,22 @@ def run(rep):
 
 if __name__ == "__main__" and len(sys.argv) > 2 and sys.argv[1] == "--batch-actual":
     # run the real code on every input and print what it computed (used by the run-time contract fallback)
+    # history frame: what an earlier call returned must not be modified by a later call of the same function on other
+    # inputs (recycled buffers, shared result caches): the last few live result arrays are kept and compared with the
+    # snapshot taken when they were returned
+    import numpy as _np
     reps = json.load(open(sys.argv[2]))
     outs = []
+    kept = []
     for rep in reps:
         try:
-            outs.append(run(rep)["actual"])
+            a = run(rep)["actual"]
+            live = a.pop("__live__", [])
+            a["earlier_result_modified"] = any(not _np.array_equal(x, snap) for x, snap in kept)
+            if a["earlier_result_modified"]:
+                kept = []
+            kept = (kept + [(x, _np.array(x, copy=True)) for x in live])[-4:]
+            outs.append(a)
         except Exception as e:
             outs.append({"exception": f"harness:{type(e).__name__}: {e}"})
     print("@@JSON@@" + json.dumps(outs))
@@ -536,6 +638,7 @@ if __name__ == "__main__" and len(sys.argv) > 2 and sys.argv[1] == "--batch":
     for rep in reps:
         try:
             o = run(rep)
+            o["actual"].pop("__live__", None)
             outs.append({"reproduced": o["reproduced"], "mismatches": o["mismatches"][:5]})
         except Exception as e:
             outs.append({"reproduced": False, "mismatches": [f"replay raised {type(e).__name__}: {e}"]})
@@ -545,5 +648,6 @@ if __name__ == "__main__" and len(sys.argv) > 2 and sys.argv[1] == "--batch":
 if __name__ == "__main__":
     rep = json.load(open(sys.argv[1]))
     out = run(rep)
+    out["actual"].pop("__live__", None)
     print(json.dumps({k: out[k] for k in ("tree", "nasim_file", "reproduced", "mismatches")}, indent=1))
     sys.exit(0 if out["reproduced"] else 1)
